@@ -316,6 +316,18 @@ class ContractMixin:
                 result = self.eval_clause(con.returns.node, con.returns.globs, self.clause_env(con.returns, env))
                 if isinstance(result, SV) and isinstance(result.ty, TNode):
                     result = SV(result.term, result.ty, oid=self.new_oid('res'), fresh=con.result_fresh)
+            elif con.result is not None and con.result.startswith('Tuple['):
+                # a fixed-size tuple of values: a Python tuple of fresh symbols
+                parts = [x.strip() for x in con.result[len('Tuple['):-1].split(',')]
+                items = []
+                for i_, pt in enumerate(parts):
+                    ity = parse_ty(pt, self.ct)
+                    sv = self.fresh(f'res{i_}_' + con.qualname.split('.')[-1], ity)
+                    if isinstance(ity, TNode):
+                        sv.oid = self.new_oid('res')
+                        sv.fresh = con.result_fresh
+                    items.append(sv)
+                result = tuple(items)
             elif con.result is not None:
                 rty = parse_ty(con.result, self.ct)
                 result = self.fresh('res_' + con.qualname.split('.')[-1], rty)
